@@ -978,6 +978,13 @@ func Spec() *mon.Spec {
 				e.Count("elvish_exhaustive_complete", 1)
 			}
 		},
-		Floors: map[string]int{"sweep_exhaustive_complete": 1, "elvish_exhaustive_complete": 1},
+		Floors: map[string]int{"sweep_exhaustive_complete": 1, "elvish_exhaustive_complete": 1,
+			"pairs_list": 11990, "pairs_ascii": 11990, "pairs_multibyte": 700000, "elvish_pairs": 50000,
+			"multibyte_strings_with_ufffd": 150, "valid_positions_next_to_ufffd": 4000, "str_expect_exception_inside_codepoint": 50000,
+			"str_expect_slice": 35000, "str_expect_element": 4000, "list_expect_slice": 600, "list_expect_element": 60,
+			"elvish_literal_index_in_source": 5000, "elvish_expect_slice": 2000, "elvish_expect_element": 200,
+			"large_convert_expect_slice": 3000, "large_convert_expect_element": 2500, "large_list_expect_slice": 1400, "large_list_expect_element": 1200,
+			"large_str_expect_slice": 500, "large_str_expect_element": 500, "large_list_tolerated_number-like-spelling": 800,
+			"malformed_or_nonintegral_indices": 2500, "multi_index_both_valid": 150, "distinct_nontrivial": 18000},
 	}
 }
